@@ -17,7 +17,7 @@ from pathlib import Path
 
 HERE = Path(__file__).resolve().parent.parent
 ROUND = os.environ.get('ROUND', 'r4')                 # r4 -> seeded/Cxx-r4-n + refactors/G-Cxx-n ; r5 -> Cxx-r5-n + H-Cxx-n
-GOODTAG = {'r4': 'G', 'r5': 'H'}.get(ROUND, 'G')
+GOODTAG = {'r4': 'G', 'r5': 'H', 'r6': 'J'}.get(ROUND, 'G')
 sys.path.insert(0, str(HERE / 'tools'))
 import eval_seeded  # noqa: E402
 import keep_seeded  # noqa: E402
